@@ -180,7 +180,18 @@ def jd_pairs(rng, n):
                                      ("meta", '<meta name="keywords" content="k"><meta name="dc.created" content="%s"><link rel="x">')]))
         if rng.random() < 0.3:
             lines.insert(rng.randrange(2, len(lines)), ("t", '<meta http-equiv="Content-Type" content="text/html; charset=UTF-8">'))
-        lines += [("t", "</head>"), ("t", "<body>"), ("t", "<p>generated text zażółć</p>"), ("t", "</body>"), ("t", "</html>")]
+        r = rng.random()
+        if r < 0.2:
+            lines += [("meta", '<meta name="dc.created" content="%s"></head>')]                       # compact head: the tag shares the line that ends the header
+        elif r < 0.3:
+            lines += [("stamp", "%s</head>")]
+        elif r < 0.45:
+            while len(lines) < 14:
+                lines.append(("t", '<link rel="stylesheet" type="text/css" href="s%d.css">' % len(lines)))
+            lines = lines[:14] + [rng.choice([("meta", '<meta name="date" content="%s">'), ("stamp", "%s")]), ("t", "</head>")]   # on line 15, the last one looked at
+        else:
+            lines += [("t", "</head>")]
+        lines += [("t", "<body>"), ("t", "<p>generated text zażółć</p>"), ("t", "</body>"), ("t", "</html>")]
         content = (eol, lines)
 
         def nd():
@@ -192,12 +203,32 @@ def jd_pairs(rng, n):
     return out
 
 
+def twin(v):
+    """A structurally equal copy made of fresh objects (marshalled separately, with flags of its own)."""
+    k = v[0]
+    if k == "seq":
+        return ("seq", v[1], tuple(twin(x) for x in v[2]))
+    if k == "dict":
+        return ("dict", tuple(twin(x) for x in v[1]))
+    if k == "slice":
+        return ("slice",) + tuple(twin(x) for x in v[1:])
+    if k == "code":
+        return ("code", tuple(v[1]), tuple(twin(x) for x in v[2]))
+    return tuple(v)
+
+
 def pyc_pairs(rng, n):
     out = []
     for i in range(n):
         ver = VERS[i % len(VERS)]
         for _attempt in range(20):
             v = pm.gen_value(rng, ver)
+            if i % 3 == 0:
+                # equal objects stored twice (the same constant in two functions): whether they are merged must not depend on the flags
+                if ver >= (3, 14) and i % 2 == 0:
+                    leaves = [("single", b"N"), ("int", struct.pack("<i", 1)), ("int", struct.pack("<i", 2))]
+                    v = ("slice", rng.choice(leaves), rng.choice(leaves), rng.choice(leaves))
+                v = ("seq", b"(", (v, twin(v), ("seq", b"(", (twin(v),))))
             datas = [pm.header(ver) + pm.dumps(v, ver, rng, p) for p in rng.sample([0.0, 0.2, 0.5, 0.8, 1.0], 3)]
             if max(len(d) for d in datas) <= 20000:
                 break
